@@ -1,7 +1,10 @@
-(* C15 - what the boolean checkers of TreeDistExec.v decide. *)
+(* C15 - what the boolean checkers of TreeDistExec.v decide, and the proof that
+   the check cannot raise a false alarm: on a case whose implementation fields
+   equal the model's outputs every bit of td_case_code is 0. *)
 From Coq Require Import Ascii String Bool Arith ZArith QArith Lia List Permutation.
 From LV Require Import Common.Cases TreeDist.Newick TreeDist.Bipart TreeDist.RF TreeDist.Spec
-  TreeDist.SetProofs TreeDist.TreeProofs TreeDist.TreeDistExec.
+  TreeDist.SetProofs TreeDist.NewickProofs TreeDist.TreeProofs TreeDist.ParseProofs TreeDist.RFProofs.
+From LV Require Import TreeDist.TreeDistExec.
 Import ListNotations.
 Local Open Scope nat_scope.
 
@@ -48,3 +51,172 @@ Proof.
   - intros [H1 H2]. split; intros c Hc; apply set_mem_iff; auto.
   - intros [H1 H2]. split; intros c Hc; apply set_mem_iff; auto.
 Qed.
+
+(* ---------- reflexivity of the comparisons ---------- *)
+
+Lemma list_eqb_refl : forall (A : Type) (e : A -> A -> bool) l, (forall x, In x l -> e x x = true) -> list_eqb e l l = true.
+Proof.
+  intros A e. induction l as [|x l IH]; intros H; [reflexivity|]. cbn [list_eqb].
+  rewrite (H x) by (left; reflexivity). apply IH. intros y Hy. apply H. right. exact Hy.
+Qed.
+
+Lemma strs_eqb_refl : forall l, strs_eqb l l = true.
+Proof. intros l. apply list_eqb_refl. intros x _. apply str_eqb_refl. Qed.
+
+Lemma strss_eqb_refl : forall l, strss_eqb l l = true.
+Proof. intros l. apply list_eqb_refl. intros x _. apply strs_eqb_refl. Qed.
+
+Lemma set_eqb_refl : forall l, set_eqb l l = true.
+Proof. intros l. apply set_eqb_iff. apply seteq_refl. Qed.
+
+Lemma sets_eqb_refl : forall l, sets_eqb l l = true.
+Proof. intros l. apply list_eqb_refl. intros x _. apply set_eqb_refl. Qed.
+
+Lemma setsets_eqb_refl : forall l, setsets_eqb l l = true.
+Proof.
+  intros l. apply setsets_eqb_spec. split; intros c Hc; exists c; split; auto; apply seteq_refl.
+Qed.
+
+Lemma optstr_eqb_refl : forall l, optstr_eqb l l = true.
+Proof. intros [x|]; [apply str_eqb_refl|reflexivity]. Qed.
+
+Lemma tree_eqb_refl : forall t, tree_eqb t t = true.
+Proof.
+  induction t as [n l|cs l IH] using tree_ind'; cbn [tree_eqb].
+  - rewrite str_eqb_refl, optstr_eqb_refl. reflexivity.
+  - rewrite optstr_eqb_refl. cbn [andb]. induction cs as [|c cs IHc]; [reflexivity|].
+    inversion IH as [|? ? Hc Hcs]; subst. rewrite Hc. cbn [andb]. apply IHc. exact Hcs.
+Qed.
+
+Lemma oq_eqb_refl : forall x, oq_eqb x x = true.
+Proof. intros [q|]; [apply Qeq_bool_refl|reflexivity]. Qed.
+
+Lemma dist_eqb_refl : forall m, dist_eqb m (option_map fst m) (option_map snd m) = true.
+Proof. intros m. unfold dist_eqb. rewrite !oq_eqb_refl. reflexivity. Qed.
+
+Lemma bip_eqb_refl : forall m, bip_eqb m m = true.
+Proof. intros [[p l]|]; [|reflexivity]. cbn [bip_eqb]. rewrite sets_eqb_refl, set_eqb_refl. reflexivity. Qed.
+
+(* ---------- no false alarm ---------- *)
+
+Section NoFalseAlarm.
+  Variables a b a' b' : tree.
+  Hypothesis Wa : wf_tree a.
+  Hypothesis Wb : wf_tree b.
+  Let c := model_case a b a' b'.
+
+  Lemma valid_pair_inv : valid_pair c = true -> seteq (leaves a) (leaves b).
+  Proof.
+    unfold valid_pair. cbn [c model_case tc_a tc_b]. rewrite !andb_true_iff. intros [_ H]. apply same_taxa_spec. exact H.
+  Qed.
+
+  Lemma guard_inv : guard c = true -> seteq (leaves a) (leaves b) /\ has_split a = true /\ has_split b = true.
+  Proof.
+    unfold guard. rewrite !andb_true_iff. intros [[H1 H2] H3]. split; [apply valid_pair_inv; exact H1|]. auto.
+  Qed.
+
+  Lemma reordered_inv : reordered c = true -> tperm a a' /\ tperm b b'.
+  Proof.
+    unfold reordered. cbn [c model_case tc_a tc_b tc_a' tc_b']. rewrite andb_true_iff.
+    intros [H1 H2]. split; apply tree_permb_sound; assumption.
+  Qed.
+
+  Lemma chk0_model : chk0 c = true.
+  Proof.
+    unfold chk0. cbn [c model_case tc_a tc_b tc_a' tc_b' tc_srcA tc_srcB tc_strA tc_strB tc_taxaA tc_cladesA tc_taxaB
+      tc_cladesB tc_str2A tc_taxa2A tc_clades2A tc_str2B tc_taxa2B tc_clades2B tc_bipA tc_bipB tc_ab tc_ba tc_aa tc_bb
+      tc_pab fst snd].
+    rewrite !(parse_print _ Wa), !(parse_print _ Wb). cbn [option_eqb].
+    rewrite !tree_eqb_refl, !str_eqb_refl, !strs_eqb_refl, !strss_eqb_refl, !bip_eqb_refl, !dist_eqb_refl.
+    cbn [andb].
+    destruct (valid_pair c) eqn:V; [|reflexivity]. cbn [negb orb].
+    change (option_map fst (grf_both (print a) (print b))) with (tree_grf a b).
+    rewrite (tree_grf_spec a b Wa Wb (valid_pair_inv V)). apply oq_eqb_refl.
+  Qed.
+
+  Lemma self_is0 : forall t, wf_tree t -> has_split t = true ->
+    is0 (option_map fst (grf_both (print t) (print t))) && is0 (option_map snd (grf_both (print t) (print t))) = true.
+  Proof.
+    intros t W H. destruct (self_distance_zero t W H) as [g [r [E [Hg Hr]]]]. rewrite E. cbn [option_map fst snd].
+    apply andb_true_iff. split; apply is0_spec; eexists; split; try reflexivity; assumption.
+  Qed.
+
+  Lemma chk1_model : chk1 c = true.
+  Proof.
+    unfold chk1. cbn [c model_case tc_a tc_b tc_aa tc_bb fst snd].
+    apply andb_true_iff. split.
+    - destruct (wfb a && has_split a) eqn:G; [|reflexivity]. cbn [negb orb].
+      apply andb_true_iff in G. apply self_is0; [exact Wa|tauto].
+    - destruct (wfb b && has_split b) eqn:G; [|reflexivity]. cbn [negb orb].
+      apply andb_true_iff in G. apply self_is0; [exact Wb|tauto].
+  Qed.
+
+  Lemma chk2_model : chk2 c = true.
+  Proof.
+    unfold chk2. destruct (guard c && reordered c) eqn:G; [|reflexivity]. cbn [negb orb].
+    apply andb_true_iff in G. destruct G as [G P].
+    destruct (guard_inv G) as [S [Ha Hb]]. destruct (reordered_inv P) as [Ta Tb].
+    cbn [c model_case tc_ab tc_pab fst snd].
+    rewrite (grf_both_perm_invariant a b a' b' Wa Wb S Ta Tb). rewrite !oq_eqb_refl. cbn [andb].
+    destruct (grf_both (print a) (print b)) as [[g r]|] eqn:E; [reflexivity|].
+    apply (distances_defined a b Wa Wb S) in E. congruence.
+  Qed.
+
+  Lemma in01_grf : forall x y, in01 (option_map fst (grf_both x y)) = true.
+  Proof.
+    intros x y. change (option_map fst (grf_both x y)) with (grf x y).
+    destruct (grf x y) as [g|] eqn:E; [|reflexivity]. apply in01_spec. apply (grf_range_any x y g E).
+  Qed.
+
+  Lemma in01_rf : forall x y, wf_tree x -> wf_tree y -> seteq (leaves x) (leaves y) ->
+    in01 (option_map snd (grf_both (print x) (print y))) = true.
+  Proof.
+    intros x y Wx Wy S. destruct (grf_both (print x) (print y)) as [[g r]|] eqn:E; [|reflexivity].
+    cbn [option_map snd]. apply in01_spec. apply (distances_range x y g r Wx Wy S E).
+  Qed.
+
+  Lemma chk3_model : chk3 c = true.
+  Proof.
+    unfold chk3. cbn [c model_case tc_ab tc_ba tc_pab fst snd]. rewrite !in01_grf. cbn [andb].
+    destruct (valid_pair c) eqn:V; [|reflexivity]. cbn [negb orb].
+    assert (S := valid_pair_inv V).
+    rewrite (in01_rf a b Wa Wb S), (in01_rf b a Wb Wa (seteq_sym _ _ S)). cbn [andb].
+    destruct (reordered c) eqn:P; [|reflexivity]. cbn [negb orb].
+    destruct (reordered_inv P) as [Ta Tb].
+    apply in01_rf; [apply (tperm_wf a a' Ta Wa)|apply (tperm_wf b b' Tb Wb)|].
+    destruct (tperm_leaves_clades a a' Ta) as [Pa _]. destruct (tperm_leaves_clades b b' Tb) as [Pb _].
+    eapply seteq_trans; [apply seteq_sym, Permutation_seteq; exact Pa|].
+    eapply seteq_trans; [exact S|apply Permutation_seteq; exact Pb].
+  Qed.
+
+  Lemma chk4_model : chk4 c = true.
+  Proof.
+    unfold chk4. destruct (guard c) eqn:G; [|reflexivity]. cbn [negb orb].
+    destruct (guard_inv G) as [S [Ha Hb]]. cbn [c model_case tc_ab tc_ba snd].
+    change (option_map snd (grf_both (print a) (print b))) with (tree_rf a b).
+    change (option_map snd (grf_both (print b) (print a))) with (tree_rf b a).
+    rewrite (rf_symmetric a b Wa Wb S Ha Hb). apply oq_eqb_refl.
+  Qed.
+
+  Lemma chk5_model : chk5 c = true.
+  Proof.
+    unfold chk5. destruct (guard c) eqn:G; [|reflexivity]. cbn [negb orb].
+    destruct (guard_inv G) as [S _]. cbn [c model_case tc_ab tc_a tc_b snd].
+    change (option_map snd (grf_both (print a) (print b))) with (tree_rf a b).
+    rewrite (tree_rf_spec a b Wa Wb S). apply oq_eqb_refl.
+  Qed.
+
+  Lemma chk6_model : chk6 c = true.
+  Proof.
+    unfold chk6. cbn [c model_case tc_a tc_b tc_taxaA tc_taxa2A tc_cladesA tc_clades2A tc_taxaB tc_taxa2B tc_cladesB
+                        tc_clades2B].
+    rewrite !set_eqb_refl, !setsets_eqb_refl. cbn [andb]. rewrite !orb_true_r. reflexivity.
+  Qed.
+
+  (* if lingpy returns what the model computes, the check is silent *)
+  Theorem no_false_alarm : td_case_code c = 0.
+  Proof.
+    unfold td_case_code.
+    rewrite chk0_model, chk1_model, chk2_model, chk3_model, chk4_model, chk5_model, chk6_model. reflexivity.
+  Qed.
+End NoFalseAlarm.
